@@ -9,7 +9,10 @@ and the tiny statement language into which the translator
 `Filter` creates two closures over one captured `index`; `next` is handed to
 every module.  `next(false)` calls `finish(false)` and returns; `next(true)`
 moves the index and calls `doNow`, whose last action is `doFunc(mods[index], next)`
-or `finish(true)`.  Nothing follows these calls inside `next`/`doNow`, so a
+or `finish(true)`.  Nothing follows these calls inside `next`/`doNow`, so — as long as
+`finish` returns normally and does not re-enter the list (a panicking `finish` unwinds
+into the innermost `doFunc` recover of a synchronous chain but kills the goroutine of a
+delayed completion; a re-entering one blocks on Filter's lock in a synchronous chain) — a
 nested (synchronous) completion and a completion that arrives later from another
 goroutine have the same effect: the observable log is a function of the
 *chronological sequence of `next` calls*.  The model is therefore a state
@@ -68,6 +71,91 @@ def runFrom (s : ML) (tr : List Ev) : List (Nat × Bool) → ML × List Ev
 /-- the whole observable log of one phase -/
 def run (n : Nat) (fwd : Bool) (cs : List (Nat × Bool)) : List Ev :=
   (runFrom (filter n fwd).1 (filter n fwd).2 cs).2
+
+/-! ### ModList.Start / ModList.Stop: the closure handed to `Filter` as `doFunc`
+
+`ModList.Start/Stop` do not hand `next` to the module: `doFunc` wraps it.  Per entered module it
+keeps two flags, `reported` and `failedByPanic`; a deferred `recover()` handler turns a panic of
+the module's Start/Stop *before the module reported anything* into `next(false)` (once: it sets
+`failedByPanic`), a report that arrives after that is dropped, and a panic *after* a report is only
+logged (D21, /repo b70026f; before that fix a recovered panic called nothing and the module got the
+bare `next`: `wcallsOld`).  A module is entered at most once per phase (`order_unconditional`), so
+the flags are kept per module index. -/
+
+/-- what a module does, as seen by `doFunc` -/
+inductive MAct
+  | report (w : Nat) (b : Bool)   -- module w invokes the callback it was handed, with `b`
+  | panic (w : Nat)               -- module w's Start/Stop panics (recovered by doFunc's deferred handler)
+  deriving DecidableEq, Repr
+
+def MAct.who : MAct → Nat
+  | .report w _ => w
+  | .panic w => w
+
+/-- the flags of the `doFunc` invocations of one phase -/
+structure Wrap where
+  reported : List Nat := []   -- modules whose `reported` is true
+  dead : List Nat := []       -- modules whose `failedByPanic` is true
+  deriving DecidableEq, Repr
+
+/-- one module action: the new flags and the `next` call the wrapper makes, if any -/
+def Wrap.step (ws : Wrap) : MAct → Wrap × Option (Nat × Bool)
+  | .report w b =>
+    if ws.dead.contains w then (ws, none)                           -- if failedByPanic { return }
+    else ({ ws with reported := w :: ws.reported }, some (w, b))    -- reported = true; next(succ)
+  | .panic w =>
+    if ws.reported.contains w then (ws, none)                       -- recovered, logged
+    else ({ ws with dead := w :: ws.dead }, some (w, false))        -- if !reported { failedByPanic = true; next(false) }
+
+/-- the flags after a chronological sequence of module actions -/
+def wstate (ws : Wrap) : List MAct → Wrap
+  | [] => ws
+  | a :: as => wstate (ws.step a).1 as
+
+/-- the `next` calls the wrappers make for a chronological sequence of module actions -/
+def wcallsFrom (ws : Wrap) : List MAct → List (Nat × Bool)
+  | [] => []
+  | a :: as => (ws.step a).2.toList ++ wcallsFrom (ws.step a).1 as
+
+def wcalls (acts : List MAct) : List (Nat × Bool) := wcallsFrom {} acts
+
+/-- the observable log of one `ModList.Start` (`fwd`) / `ModList.Stop` phase driven by module actions -/
+def wrun (n : Nat) (fwd : Bool) (acts : List MAct) : List Ev := run n fwd (wcalls acts)
+
+/-- before the D21 fix: the module holds the bare `next`; a recovered panic calls nothing -/
+def wcallsOld : List MAct → List (Nat × Bool)
+  | [] => []
+  | .report w b :: as => (w, b) :: wcallsOld as
+  | .panic _ :: as => wcallsOld as
+
+def wrunOld (n : Nat) (fwd : Bool) (acts : List MAct) : List Ev := run n fwd (wcallsOld acts)
+
+/-- the hypothesis on the modules at the level of what they do: every action is made by a module
+that has been entered, a module reports at most once, and its Start/Stop panics at most once (a Go
+function is unwound once). -/
+def MDisciplined (n : Nat) (fwd : Bool) (acts : List MAct) : Prop :=
+  ∀ p a q, acts = p ++ a :: q →
+    Ev.enter a.who ∈ wrun n fwd p ∧
+    (∀ w b, a = .report w b → ∀ b', MAct.report w b' ∉ p) ∧
+    (∀ w, a = .panic w → MAct.panic w ∉ p)
+
+/-- every entered module has reported or has panicked -/
+def MComplete (n : Nat) (fwd : Bool) (acts : List MAct) : Prop :=
+  ∀ m, Ev.enter m ∈ wrun n fwd acts → (∃ b, MAct.report m b ∈ acts) ∨ MAct.panic m ∈ acts
+
+def MAct.isReportOf (w : Nat) : MAct → Bool
+  | .report w' _ => w' == w
+  | .panic _ => false
+
+def MAct.isPanicOf (w : Nat) : MAct → Bool
+  | .panic w' => w' == w
+  | .report _ _ => false
+
+/-- the actions of module `w` executing a Start/Stop body: the reports `bs` its path makes, possibly cut
+short by a panic (of any of its statements) after `k` of them -/
+def bodyActs (w : Nat) (bs : List Bool) : Option Nat → List MAct
+  | none => bs.map (.report w)
+  | some k => (bs.take k).map (.report w) ++ [.panic w]
 
 /-! ### a module list that grows while a phase runs
 
@@ -241,6 +329,108 @@ def opCalls (start : Bool) : List AOp → List (Nat × Bool)
 
 /-- number of times a phase of the given kind was begun -/
 def begins (start : Bool) (tr : List AEv) : Nat := (tr.filter (· == .begin start)).length
+
+/-! ### node/app.App: StartNode / StopNode around baseapp.LaunchApp
+
+`StartNode(id, fin)`: no nodes table or unknown node id → return (nothing happens, `fin` is never
+invoked); `LaunchApp`: the node's StartMode names a registered launch mode, or falls back to the
+default one; no mode at all → return false (ignored by StartNode: nothing happens, `fin` never
+invoked); else `mode.PrepareModules(app)` — *before* `App.Start`'s guard — and `App.Start` with the
+closure `func(succ){ StartServices(); StartNodeCtrl(); fin(succ) }` as its `finish`.
+`StopNode(fin)`: `App.Stop(func(succ){ if fin != nil { fin(succ) } })`. -/
+
+/-- what StartNode finds -/
+structure NodeEnv where
+  nodesLoaded : Bool := true      -- a.nodes != nil (Prepare was called)
+  modeNamed : Bool := true        -- nodeInfo.StartMode != ""
+  modeRegistered : Bool := true   -- LaunchFactory.GetMode(StartMode) != nil
+  hasDefault : Bool := true       -- SetDefaultLaunchFunc was called
+  svc : List Bool := []           -- the node's services; true = has an entry under `services:`
+  deriving DecidableEq, Repr
+
+/-- `LaunchApp`: is there a launch mode to use? -/
+def NodeEnv.resolves (e : NodeEnv) : Bool :=
+  if e.modeNamed then e.modeRegistered || e.hasDefault else e.hasDefault
+
+inductive NEv
+  | prepare                 -- mode.PrepareModules(app)
+  | app (e : AEv)           -- what the embedded baseapp.App does
+  | service (i : Nat)       -- StartServices: service.Factory.Create for the node's i-th service
+  | nodeCtrl                -- StartNodeCtrl
+  | fin (b : Bool)          -- the caller's start-completion callback
+  | finX (b : Bool)         -- the caller's stop-completion callback
+  deriving DecidableEq, Repr
+
+/-- `StartServices`: every listed service that has a configuration entry, in order; the others are skipped -/
+def startedServices (svc : List Bool) : List NEv :=
+  ((List.range svc.length).filter fun i => svc.getD i false).map .service
+
+/-- the closures StartNode / StopNode hand down as `finish`, applied to what the App does -/
+def nodeLog (svc : List Bool) : List AEv → List NEv
+  | [] => []
+  | .ev true (.finish b) :: r => .app (.ev true (.finish b)) :: (startedServices svc ++ .nodeCtrl :: .fin b :: nodeLog svc r)
+  | .ev false (.finish b) :: r => .app (.ev false (.finish b)) :: .finX b :: nodeLog svc r
+  | e :: r => .app e :: nodeLog svc r
+
+structure Node where
+  env : NodeEnv
+  app : App
+  deriving DecidableEq, Repr
+
+inductive NOp
+  | startNode (known : Bool) (adds : Nat)      -- StartNode(id, fin); known: nodes.Nodes[id] != nil; adds: the number of
+                                               --   modules the launch mode's PrepareModules (user code) registers this time
+  | stopNode                                   -- StopNode(fin)
+  | call (start : Bool) (w : Nat) (b : Bool)   -- the wrapper of module w invokes the phase's `next`
+  deriving DecidableEq, Repr
+
+def addModules : Nat → App → App
+  | 0, a => a
+  | k + 1, a => addModules k a.addModule
+
+def Node.step (s : Node) : NOp → Node × List NEv
+  | .startNode known adds =>
+    if !s.env.nodesLoaded || !known || !s.env.resolves then (s, [])
+    else
+      let r := (addModules adds s.app).step .start
+      ({ s with app := r.1 }, .prepare :: nodeLog s.env.svc r.2)
+  | .stopNode =>
+    let r := s.app.step .stop
+    ({ s with app := r.1 }, nodeLog s.env.svc r.2)
+  | .call ph w b =>
+    let r := s.app.step (.call ph w b)
+    ({ s with app := r.1 }, nodeLog s.env.svc r.2)
+
+def Node.runFrom (s : Node) (tr : List NEv) : List NOp → Node × List NEv
+  | [] => (s, tr)
+  | op :: ops => Node.runFrom (s.step op).1 (tr ++ (s.step op).2) ops
+
+/-- a node after `NewNode()` + `Prepare(cfgDir)`: no modules yet (the launch mode adds them) -/
+def Node.init (e : NodeEnv) : Node := ⟨e, App.init 0⟩
+
+def Node.run (e : NodeEnv) (ops : List NOp) : Node × List NEv := Node.runFrom (Node.init e) [] ops
+
+/-- projections of a node-level log -/
+def appEvs : List NEv → List AEv
+  | [] => []
+  | .app e :: r => e :: appEvs r
+  | _ :: r => appEvs r
+
+def fins : List NEv → List Bool
+  | [] => []
+  | .fin b :: r => b :: fins r
+  | _ :: r => fins r
+
+def finXs : List NEv → List Bool
+  | [] => []
+  | .finX b :: r => b :: finXs r
+  | _ :: r => finXs r
+
+/-- the App-level operation a node-level operation comes down to (once StartNode is accepted) -/
+def NOp.toAOp : NOp → AOp
+  | .startNode _ _ => .start
+  | .stopNode => .stop
+  | .call ph w b => .call ph w b
 
 /-! ### statement language for the bodies of the shipped modules' Start / Stop
 
